@@ -128,7 +128,10 @@ func SchedulePromises(config *system.Config, tags map[string]string) gocoro.Coro
 // Helper functions
 
 func generatePromiseId(id string, vars map[string]string) (string, error) {
-	t := template.Must(template.New("promiseId").Parse(id))
+	t, err := template.New("promiseId").Parse(id)
+	if err != nil {
+		return "", err
+	}
 
 	var replaced strings.Builder
 	if err := t.Execute(&replaced, vars); err != nil {
